@@ -285,14 +285,15 @@ def replay_side(path, engine, prop):
             meta[k.strip()] = v.strip()
         elif l.strip():
             vals.append(l.strip())
-    if engine == "e4":
+    if engine in ("e4", "e5"):
         import e4
+        import e5
         text = open(path).read().split("# program:\n", 1)[1]
-        res, _ = e4.run([{"name": "replay", "text": text}])
+        res, _ = (e4 if engine == "e4" else e5).run([{"name": "replay", "text": text}])
         bad = bool(res) and res[0]["verdict"] == "fail"
         for f in (res[0]["failed"] if res else [])[:3]:
-            print("replay[e4] " + f["check"])
-        print("replay[e4] -> %s" % ("reproduced" if bad else "not reproduced"))
+            print("replay[%s] " % engine + f["check"])
+        print("replay[%s] -> %s" % (engine, "reproduced" if bad else "not reproduced"))
     elif engine == "e2":
         import e2
         e2.build_native()
@@ -324,7 +325,7 @@ def replay_file(path):
             engine = l.split(":", 1)[1].strip()
         if l.startswith("# property:"):
             prop = l.split(":", 1)[1].strip()
-    if engine in ("e2", "e3", "e4"):
+    if engine in ("e2", "e3", "e4", "e5"):
         return replay_side(path, engine, prop)
     for l in open(path):
         if l.startswith("# harness:"):
@@ -525,7 +526,7 @@ def run_e3(prop, hs):
     return out
 
 
-def run_e4(prop, hs, tier):
+def run_e4(prop, hs, tier, engine="e4"):
     import sys
     sys.path.insert(0, os.path.join(ROOT, "mir2smt"))
     out = []
@@ -533,6 +534,10 @@ def run_e4(prop, hs, tier):
         import e4
         import e4_programs
         fam = e4_programs.families(tier)
+        if engine == "e5":
+            import e5
+            fam = {k: [p for p in v if e5.eligible(p["text"])] for k, v in fam.items()}
+            e4 = e5   # same interface: run(programs) -> (results, seconds)
     except Exception as e:  # never a pass
         return [_side_result(h, "inconclusive", "E4 driver error: %r" % e, 0, None, 0, []) for h in hs]
     for h in hs:
@@ -550,12 +555,13 @@ def run_e4(prop, hs, tier):
         nq = sum(r["queries"] for r in res)
         nclaims = sum(r["claims"] for r in res)
         if bad:
-            verdict, reason = "fail", "%d of %d programs carry a false claim" % (len(bad), len(res))
+            verdict, reason = "fail", "%d of %d programs carry a %s" % (len(bad), len(res), "false claim" if engine == "e4" else "liveness defect")
         elif inc:
             verdict, reason = "inconclusive", "%d of %d programs inconclusive (%s)" % (len(inc), len(res), inc[0]["reason"])
         else:
             verdict, reason = "pass", "%d programs, %d claims: %d verification conditions unsat (z3)" % (len(res), nclaims, nq)
-        sr = _side_result(h, verdict, reason, dt, None, nq, ["AvailableValuePass::run (native, via Manager::gen_full_cfg)"])
+        sr = _side_result(h, verdict, reason, dt, None, nq, ["AvailableValuePass::run (native, via Manager::gen_full_cfg)"] if engine == "e4" else
+                          ["LivenessPass::run (native, via Manager::gen_full_cfg)"])
         sr["programs"] = len(res)
         sr["claims"] = nclaims
         sr["sample_program"] = res[len(res) // 2]["text"]
@@ -563,12 +569,12 @@ def run_e4(prop, hs, tier):
             f = r["failed"][0]
             d = os.path.join(REPLAYS, prop)
             os.makedirs(d, exist_ok=True)
-            path = os.path.join(d, "e4_%s.txt" % r["name"])
+            path = os.path.join(d, "%s_%s.txt" % (engine, r["name"]))
             with open(path, "w") as fh:
-                fh.write("# property: %s\n# engine: e4\n# harness: %s\n# check: %s\n# model: %s\n# program:\n%s" % (
+                fh.write("# property: %s\n# engine: " + engine + "\n# harness: %s\n# check: %s\n# model: %s\n# program:\n%s" % (
                     prop, h["name"], f["check"], json.dumps(f.get("model", {})), r["text"]))
             sr["failed"].append({"check": f["check"], "file": "riscv_analysis/src/analysis/available.rs", "line": None,
-                                 "function": "AvailableValuePass::run", "replay": path, "values": f.get("model"),
+                                 "function": "AvailableValuePass::run" if engine == "e4" else "LivenessPass::run", "replay": path, "values": f.get("model"),
                                  "dev": "reproduced" if f.get("reproduced") else "not-reproduced",
                                  "dev_msg": "program %s" % r["name"], "release": None})
         out.append(sr)
@@ -599,6 +605,7 @@ def run_property(prop, tier, seed, jobs, only, write_evidence=True):
     e2_hs = [h for h in hs if h.get("engine") == "e2"]
     e3_hs = [h for h in hs if h.get("engine") == "e3"]
     e4_hs = [h for h in hs if h.get("engine") == "e4"]
+    e5_hs = [h for h in hs if h.get("engine") == "e5"]
     hs = [h for h in hs if h.get("engine", "kani") == "kani"]
     side = []
     if e2_hs:
@@ -607,6 +614,8 @@ def run_property(prop, tier, seed, jobs, only, write_evidence=True):
         side.append(threading.Thread(target=lambda: results.extend(run_e3(prop, e3_hs))))
     if e4_hs:
         side.append(threading.Thread(target=lambda: results.extend(run_e4(prop, e4_hs, tier))))
+    if e5_hs:
+        side.append(threading.Thread(target=lambda: results.extend(run_e4(prop, e5_hs, tier, engine="e5"))))
     for t in side:
         t.start()
     with cf.ThreadPoolExecutor(max_workers=jobs) as ex:
@@ -704,7 +713,7 @@ def write_evidence_file(prop, tier, seed, results, violations, known_hits, incon
                      "obligation names are distinct by construction"),
             "samples": samples,
             "exhaustive": False,
-            "engine": "E1: Kani 0.68.0 / CBMC 6.11.0 (CaDiCaL), dev profile; E2: MIR (nightly -Zunpretty=mir, overflow-checks on and off) -> SMT-LIB, z3 4.8.12 + cvc5 1.0; E3: native decode of catalogue text + SMT-LIB, z3 + cvc5; E4: native pipeline on exhaustively enumerated program families + inductive-invariant VCs, z3",
+            "engine": "E1: Kani 0.68.0 / CBMC 6.11.0 (CaDiCaL), dev profile; E2: MIR (nightly -Zunpretty=mir, overflow-checks on and off) -> SMT-LIB, z3 4.8.12 + cvc5 1.0; E3: native decode of catalogue text + SMT-LIB, z3 + cvc5; E4: native pipeline on exhaustively enumerated program families + inductive-invariant VCs, z3; E5: the same programs' liveness sets + non-interference VCs, z3",
             "functions_encoded": functions,
             "queries_discharged": sum(r["n_checks"] for r in conclusive),
             "solver_time_s": round(sum(r["solver_s"] or 0 for r in results), 2),
